@@ -62,12 +62,14 @@ def runs_c06(tier):
         S.suite_solve(g, n(tier, q, t), big=big, kernel=False)
     return [(DEF, None, s, []),
             (SC, None, lambda g, tier: S.suite_solve(g, n(tier, 300, 4000), big=True, kernel=False), []),
+            (SC, None, lambda g, tier: S.suite_ple_recursive(g, n(tier, 24, 300), ops=('solve_left',)), []),
             (SC_NOSSE, ASAN, lambda g, tier: S.suite_solve(g, n(tier, 120, 1500), big=True, kernel=False), [])]
 
 
 def runs_c07(tier):
     return [(DEF, None, lambda g, tier: S.suite_solve(g, n(tier, 500, 8000), big=False, only_kernel=True), []),
             (SC, None, lambda g, tier: S.suite_solve(g, n(tier, 300, 4000), big=True, only_kernel=True), []),
+            (SC, None, lambda g, tier: S.suite_ple_recursive(g, n(tier, 24, 300), ops=('kernel',)), []),
             (SC_NOSSE, ASAN, lambda g, tier: S.suite_solve(g, n(tier, 120, 1500), big=True, only_kernel=True), [])]
 
 
@@ -161,8 +163,11 @@ def runs_c14(tier):
     def real(g, tier):
         S.alloc_random(g, 16, 16, 56623104, n(tier, 100, 1000), 300, None)
         S.alloc_random(g, 16, 16, 56623104, n(tier, 4, 20), 3000, None, many_headers=True)
+        S.alloc_blockwise(g, 16, 16, 56623104, n(tier, 40, 400))
+    def real_asan(g, tier):
+        S.alloc_blockwise(g, 16, 16, 56623104, n(tier, 15, 150))
     return [(dict(SC, defines=HOOK2), None, small, ['--fork']), (DEF, None, real, ['--fork']),
-            (dict(SC, defines=HOOK2), ASAN, small, ['--fork'])]
+            (dict(SC, defines=HOOK2), ASAN, small, ['--fork']), (DEF, ASAN, real_asan, ['--fork'])]
 
 
 def runs_c17(tier):
